@@ -81,7 +81,36 @@ def surface(xgi, obj):
                 continue
             if "in_place" in sig.parameters:
                 out.append("f:" + name)
+            elif "create_using" in sig.parameters:
+                # documented: a network *instance* given as create_using is cleared and re-used,
+                # i.e. these functions modify it in place
+                out.append("c:" + name)
     return out
+
+
+def create_using_args(xgi, name, r):
+    """data argument for a function with a create_using parameter, or None (uncovered)"""
+    import numpy as np
+    import pandas as pd
+    if name.startswith(("empty_",)):
+        return ()
+    if name == "trivial_hypergraph":
+        return (3,)
+    if name in ("to_hypergraph", "to_simplicial_complex", "from_hyperedge_list"):
+        return ([["p", "q"], ["q", "r", "s"]],)
+    if name == "to_dihypergraph":
+        return ([(["p"], ["q"])],)
+    if name in ("from_hyperedge_dict", "from_simplex_dict"):
+        return ({"e9": ["p", "q"], "e8": ["q", "r"]},)
+    if name == "from_incidence_matrix":
+        return (np.array([[1, 0], [1, 1]]),)
+    if name == "from_bipartite_pandas_dataframe":
+        return (pd.DataFrame([["p", "e9"], ["q", "e9"]]),)
+    if name in ("parse_edgelist",):
+        return (["p q", "q r s"],)
+    if name == "parse_bipartite_edgelist":
+        return (["p e9", "q e9"],)
+    return None
 
 
 def synth_args(r, target, obj, kind):
@@ -240,10 +269,12 @@ def do_probe(sim, rec):
     xgi = sim.xgi
     if target.startswith("m:") and not hasattr(act.sut, name):
         return rec["actor"]
-    if target.startswith("f:") and not hasattr(xgi, name):
+    if target.startswith(("f:", "c:")) and not hasattr(xgi, name):
         return rec["actor"]
     cov = w.extra.setdefault("probe_surface", {})
     r = random.Random(rec["argseed"])
+    if target.startswith("c:"):
+        return do_probe_create_using(sim, rec, act, name)
     # 1. on an unfrozen copy
     with warnings.catch_warnings():
         warnings.simplefilter("ignore")
@@ -296,6 +327,63 @@ def do_probe(sim, rec):
     elif exc is None:
         w.find({"C18"}, "frozen_call_not_rejected", fake, act.kind,
                f"{name} changes an unfrozen copy but returned normally on the frozen network")
+    elif not E.is_lib_exc(xgi, exc):
+        w.find({"C18"}, "frozen_wrong_error_type", fake, act.kind, f"{name}: {type(exc).__name__}: {exc}")
+    act.snap = post
+    from .. import models as M
+    act.model = M.model_from_snapshot(act.kind, post, frozen=True)
+    return rec["actor"]
+
+
+def do_probe_create_using(sim, rec, act, name):
+    """xgi.<name>(data, create_using=<network instance>) recycles the instance: on a frozen one it
+    must raise the library's error and leave it unchanged."""
+    w = sim.world
+    xgi = sim.xgi
+    cov = w.extra.setdefault("probe_surface", {})
+    r = random.Random(rec["argseed"])
+    key = f"{act.kind}.c:{name}"
+    data = create_using_args(xgi, name, r)
+    if data is None:
+        cov[key + ":no_args"] = cov.get(key + ":no_args", 0) + 1
+        return rec["actor"]
+    f = getattr(xgi, name)
+    with warnings.catch_warnings():
+        warnings.simplefilter("ignore")
+        try:
+            cp = act.sut.copy()
+        except Exception:
+            return rec["actor"]
+        before, _ = snapshot(cp)
+        try:
+            f(*data, create_using=cp)
+        except Exception:
+            pass
+        after, _ = snapshot(cp)
+    if E.structure_of(before) == E.structure_of(after):
+        cov[key + ":no_change_on_copy"] = cov.get(key + ":no_change_on_copy", 0) + 1
+        return rec["actor"]
+    w.probes["probe_replayed_on_frozen"] += 1
+    cov[key + ":replayed"] = cov.get(key + ":replayed", 0) + 1
+    pre, _ = snapshot(act.sut)
+    exc = None
+    with warnings.catch_warnings():
+        warnings.simplefilter("ignore")
+        try:
+            f(*data, create_using=act.sut)
+        except Exception as ex:  # noqa
+            exc = ex
+    post, _ = snapshot(act.sut)
+    w.logev("probe_frozen", rec["uid"], rec["actor"], "c:" + name, "ok" if exc is None else type(exc).__name__)
+    fake = {"op": "probe:create_using:" + name, "uid": rec["uid"]}
+    if E.structure_of(pre) != E.structure_of(post):
+        w.find({"C18"}, "frozen_network_modified", fake, act.kind,
+               f"{name}(..., create_using=<frozen network>) changed it "
+               f"({'returned' if exc is None else 'raised ' + type(exc).__name__}): "
+               f"{len(pre['nodes'])} nodes / {len(pre['edges'])} edges -> {len(post['nodes'])} / {len(post['edges'])}")
+    elif exc is None:
+        w.find({"C18"}, "frozen_call_not_rejected", fake, act.kind,
+               f"{name}(..., create_using=<frozen network>) would rebuild an unfrozen copy but returned normally")
     elif not E.is_lib_exc(xgi, exc):
         w.find({"C18"}, "frozen_wrong_error_type", fake, act.kind, f"{name}: {type(exc).__name__}: {exc}")
     act.snap = post
